@@ -170,6 +170,26 @@ func (r *rewriter) rewriteFile(f *ast.File) bool {
 			})
 		}
 	}
+	// close(ch) -> vsched.Close(ch) (the scheduler remembers closed channels for select readiness)
+	astutil.Apply(f, func(c *astutil.Cursor) bool {
+		call, ok := c.Node().(*ast.CallExpr)
+		if !ok {
+			return true
+		}
+		id, ok := call.Fun.(*ast.Ident)
+		if !ok || id.Name != "close" || len(call.Args) != 1 {
+			return true
+		}
+		if ch, isChan := r.typeOf(call.Args[0]).(*types.Chan); isChan && ch.Dir() != types.RecvOnly {
+			if ch.Dir() == types.SendOnly {
+				return true // vsched.Close needs a bidirectional channel for type inference; keep the builtin
+			}
+			call.Fun = &ast.SelectorExpr{X: ast.NewIdent("vsched"), Sel: ast.NewIdent("Close")}
+			r.usesV = true
+			r.stats["close"]++
+		}
+		return true
+	}, nil)
 	if r.usesV {
 		astutil.AddNamedImport(r.fset, f, "vsched", vschedPath)
 		changed = true
